@@ -195,4 +195,20 @@ def stampExtent (x : Rat × Rat) : Rat × Rat := (max (x.1 - x.2) 0, x.1 + x.2)
 def closeWithin (τ : Rat) (n m : Nat) (a b : Mat) : Bool :=
   (List.range n).all fun i => (List.range m).all fun j => decide (a i j - b i j ≤ τ) && decide (b i j - a i j ≤ τ)
 
+/-- the independent matrix `a`, with the entries of the reported pairs replaced by the reported affinity where
+    that is within `τ` of `a` (the code computes in binary64, `a` is exact) -/
+def snap (τ : Rat) (a : Mat) (out : List Entry) : Mat := fun i j =>
+  match out.find? (fun e => e.src == some i && e.tgt == some j) with
+  | some e => if a i j - e.aff ≤ τ ∧ e.aff - a i j ≤ τ then e.aff else a i j
+  | none => a i j
+
+/-- the property on an observed output, judged against an independent matrix up to `τ` per entry
+    (`Proofs.C07.C07_holds_ind` says what that means) -/
+def holdsInd (τ tol : Rat) (n m : Nat) (a : Mat) (out : List Entry) : Bool := holds tol n m (snap τ a out) out
+
+/-- … with the optimum of the snapped matrix certified instead of brute-forced -/
+def holdsIndCert (τ tol : Rat) (n m : Nat) (a : Mat) (u v : Nat → Rat) (w : List (Nat × Nat))
+    (out : List Entry) : Bool :=
+  holdsShape n m (snap τ a out) out && optimalByCert tol n m (snap τ a out) u v w out
+
 end SE.MatchCall
